@@ -12,7 +12,7 @@ vars == <<l, song, cfg, pos, fails, cnt, exec, drift>>
 
 Cfg0 == [loopEn |-> FALSE, loopN |-> -1, tnum |-> 1, tden |-> 1, enabled |-> <<>>, solo |-> -1, chdis |-> {},
          hooks |-> FALSE, loaded |-> FALSE, len |-> 0, ls |-> -1, le |-> -1, rate |-> 44100]
-Pos0 == [t |-> 0, moved |-> FALSE]
+Pos0 == [t |-> 0, moved |-> FALSE, stgt |-> -1]    \* stgt: target of the seek that immediately precedes, else -1
 Cnt0 == [steps |-> 0, execs |-> 0, plays |-> 0, events |-> 0, sameTickGroups |-> 0, tempoSongs |-> 0, multiTrack |-> 0,
          loopPlays |-> 0, jumps |-> 0, hookcalls |-> 0, seeks |-> 0, gated |-> 0, windows |-> 0, audio |-> 0, invalidLoops |-> 0,
          refined |-> 0, drifted |-> 0]
@@ -173,6 +173,30 @@ FoldCtl(S, its, i) ==
        IN FoldCtl(S1, its, i + 1)
 CtlView(m) == <<m.patch, m.msb, m.lsb, m.vol, m.expr, m.pan, m.bend, m.bsm, m.bsl, m.sus, m.soft, m.lrpn, m.mrpn, m.nrpn,
                 m.vib, m.at, m.bright, m.porta, m.portaEn>>
+\* the clauses that need only the delivered log and the reported position (judged on model runs too) ...
+SeekCoreFails(ev, sg, c, wasT) ==
+  LET its == Gated(sg, sg.its, c.enabled, c.solo)
+      tgt == ev.us
+      lastT == sg.len - 1000000
+      inside == tgt >= 0 /\ tgt < lastT - SeekSlackUs
+      tail == tgt >= lastT - SeekSlackUs /\ tgt <= sg.len
+      beyond == tgt > sg.len
+      pre  == SelectSeq(its, LAMBDA it : it.t <= tgt - SeekSlackUs)
+      amb  == SelectSeq(its, LAMBDA it : it.t > tgt - SeekSlackUs /\ it.t <= tgt + SeekSlackUs)
+      D    == SelectSeq(ev.log, LAMBDA x : x[1] = "e")
+      Dk   == [i \in DOMAIN D |-> [KeyOfEntry(D[i]) EXCEPT ![1] = 0]]
+      key0(it) == [KeyOfItem(it) EXCEPT ![1] = 0]
+      need == SelectSeq(pre, LAMBDA it : it.cls # "on")
+      may  == SelectSeq(pre \o amb, LAMBDA it : it.cls # "on")
+  IN IF inside
+     THEN Lbl(Abs(ev.tell - tgt) <= 1, "tell") \cup
+          Lbl(\A i \in DOMAIN need : Count(Dk, LAMBDA y : y = key0(need[i])) >= Count(need, LAMBDA it : key0(it) = key0(need[i])), "prefix-missing") \cup
+          Lbl(\A i \in DOMAIN Dk : Count(Dk, LAMBDA y : y = Dk[i]) <= Count(may, LAMBDA it : key0(it) = Dk[i]), "prefix-extra") \cup
+          Lbl(\A i \in DOMAIN D : D[i][3] # 9, "noteon-during-seek")
+     ELSE IF tail THEN Lbl(ev.tell = 0 \/ Abs(ev.tell - tgt) <= 1, "tell")
+     ELSE IF beyond THEN Lbl(ev.tell = 0, "beyond-end-not-rewound")
+     ELSE Lbl(ev.tell = wasT, "negative-seek-moved")
+\* ... and the whole of it, with the clauses over the synthesizer snapshot
 SeekFails(ev, sg, c) ==
   LET its == Gated(sg, sg.its, c.enabled, c.solo)
       tgt == ev.us
@@ -194,23 +218,26 @@ SeekFails(ev, sg, c) ==
       snap == ev.s
       ctlOK == \A ch \in 1..16 : CtlView(snap.mc[ch]) = CtlView(exp.mc[ch]) \/ CtlView(snap.mc[ch]) = CtlView(expLo.mc[ch])
       silent == (\A ci \in DOMAIN snap.ch : ~snap.ch[ci].k /\ snap.ch[ci].u = <<>>) /\ \A mi \in DOMAIN snap.mc : snap.mc[mi].notes = <<>>
-  IN IF inside
-     THEN Lbl(Abs(ev.tell - tgt) <= 1, "tell") \cup
-          Lbl(\A i \in DOMAIN need : Count(Dk, LAMBDA y : y = key0(need[i])) >= Count(need, LAMBDA it : key0(it) = key0(need[i])), "prefix-missing") \cup
-          Lbl(\A i \in DOMAIN Dk : Count(Dk, LAMBDA y : y = Dk[i]) <= Count(may, LAMBDA it : key0(it) = Dk[i]), "prefix-extra") \cup
-          Lbl(\A i \in DOMAIN D : D[i][3] # 9, "noteon-during-seek") \cup
-          Lbl(tgt <= SeekSlackUs \/ ctlOK, "controller-state") \cup
-          Lbl(silent, "sounding-after-seek")
-     ELSE IF tail THEN Lbl(ev.tell = 0 \/ Abs(ev.tell - tgt) <= 1, "tell") \cup Lbl(silent, "sounding-after-seek")
-     ELSE IF beyond THEN Lbl(ev.tell = 0, "beyond-end-not-rewound") \cup Lbl(silent, "sounding-after-seek")
-     ELSE Lbl(ev.tell = pos.t, "negative-seek-moved")
+  IN SeekCoreFails(ev, sg, c, pos.t) \cup
+     (IF inside THEN Lbl(tgt <= SeekSlackUs \/ ctlOK, "controller-state") \cup Lbl(silent, "sounding-after-seek")
+      ELSE IF tail \/ beyond THEN Lbl(silent, "sounding-after-seek") ELSE {})
+Ungated(c) == c.solo = -1 /\ \A i \in DOMAIN c.enabled : c.enabled[i]
+StripLog(L) == LET K == SelectSeq(L, LAMBDA x : x[1] \in {"e", "h"}) IN
+               [i \in DOMAIN K |-> IF K[i][1] = "e" THEN <<"e", K[i][2], K[i][3], K[i][4], K[i][5], K[i][6]>> ELSE <<"h", K[i][2], K[i][3]>>]
 StepSeek(ev) ==
   LET f == SeekFails(ev, song, cfg)
       tgt == ev.tell
+      \* leg (C): the seek of the sequencer model delivers the same log and reports the same position
+      \* (a target equal to the song length sits on a floating-point edge of the implementation: not compared)
+      doRef == IOEnv.SEQ_REFINE = "1" /\ Ungated(cfg) /\ ev.us >= 0 /\ ev.us # song.len /\ Len(ev.log) <= 150
+      m == IF doRef THEN SeekModel(song, cfg.loopEn, cfg.loopN, ev.us, 500000 \div cfg.rate) ELSE [log |-> <<>>, tell |-> 0]
+      dr == doRef /\ (m.tell # ev.tell \/ StripLog(m.log) # StripLog(SelectSeq(ev.log, LAMBDA x : x[1] = "e" \/ cfg.hooks)))
   IN /\ fails' = AddFails(Tag("C08", f, ev, ToString(<<"target", ev.us, "len", song.len, "tell", ev.tell, "was", pos.t>>)))
-     /\ pos' = [t |-> tgt, moved |-> TRUE]
-     /\ UNCHANGED <<song, cfg, exec, drift>>
-     /\ cnt' = [cnt EXCEPT !.steps = @ + 1, !.seeks = @ + 1]
+     /\ pos' = [t |-> tgt, moved |-> TRUE, stgt |-> IF ev.us >= 0 THEN ev.us ELSE -1]
+     /\ drift' = IF dr /\ Len(drift) < 4 THEN Append(drift, [l |-> l, x |-> exec, e |-> "Seek",
+                      d |-> ToString(<<"target", ev.us, "model-tell", m.tell, "real-tell", ev.tell, "model-log", Len(m.log), "real-log", Len(ev.log)>>)]) ELSE drift
+     /\ UNCHANGED <<song, cfg, exec>>
+     /\ cnt' = [cnt EXCEPT !.steps = @ + 1, !.seeks = @ + 1, !.refined = @ + (IF doRef THEN 1 ELSE 0), !.drifted = @ + (IF dr THEN 1 ELSE 0)]
 \* playback after a seek: exactly the reference items after the target, at their song times
 PlayAfterSeekFails(ev, sg, c, from) ==
   LET its == Gated(sg, sg.its, c.enabled, c.solo)
@@ -241,7 +268,13 @@ StepLoad(ev) ==
            Lbl(~ok \/ ev.tell = 0, "tell-after-load")
   IN /\ cfg' = [cfg EXCEPT !.loaded = ok, !.enabled = [i \in DOMAIN song.tracks |-> TRUE], !.solo = -1, !.chdis = {},
                            !.len = ev.len, !.ls = ev.ls, !.le = ev.le]
-     /\ pos' = Pos0 /\ UNCHANGED <<song, exec, drift>>
+     /\ pos' = Pos0 /\ UNCHANGED <<song, exec>>
+     /\ LET doRef == IOEnv.SEQ_REFINE = "1" /\ ok
+            rows == Rows(song)  lt == LoopTicks(song)
+            us(x) == IF x = -1 THEN -1000000 ELSE x
+            mls == us(LoopTimeUs(song, rows, lt.st, lt.invalid))  mle == us(LoopTimeUs(song, rows, lt.et, lt.invalid))
+            dr == doRef /\ (mls # ev.ls \/ mle # ev.le)
+        IN drift' = IF dr /\ Len(drift) < 4 THEN Append(drift, [l |-> l, x |-> exec, e |-> "Load", d |-> ToString(<<"model-ls-le", mls, mle, "real", ev.ls, ev.le>>)]) ELSE drift
      /\ fails' = AddFails(Tag("C07", f, ev, ""))
      /\ cnt' = [cnt EXCEPT !.steps = @ + 1]
 StepCfg(ev) ==
@@ -257,7 +290,7 @@ StepCfg(ev) ==
   /\ UNCHANGED <<song, pos, exec, fails, drift>>
   /\ cnt' = [cnt EXCEPT !.steps = @ + 1]
 StepPlayTicks(ev) ==
-  LET full == ~pos.moved /\ ev.trunc = 0
+  LET full == ~pos.moved /\ ev.trunc = 0 /\ "partial" \notin DOMAIN ev     \* partial: deliberately stopped after a few calls
       li == LoopInfo(song)
       f7 == IF full THEN PlayFullFails(ev, song, cfg) ELSE {}
       fw == IF full /\ ~cfg.loopEn THEN WindowFails(ev, song, cfg) ELSE {}
@@ -265,11 +298,14 @@ StepPlayTicks(ev) ==
                        "infinite-ended", "infinite-nojump"} \/ (cfg.loopEn /\ x = "delivery-count")
       D == EntriesOf(ev.calls, "e")
       \* leg (C): the recorded delivery (events and loop hooks, in order, with their song times) is the model's delivery
-      ungated == cfg.solo = -1 /\ \A i \in DOMAIN cfg.enabled : cfg.enabled[i]
-      doRef == IOEnv.SEQ_REFINE = "1" /\ full /\ ev.atend = 1 /\ ev.steps = <<>> /\ ungated /\ (cfg.loopEn => cfg.loopN >= 0) /\ Len(D) <= 150
+      ungated == Ungated(cfg)
+      afterSeek == pos.stgt >= 0
+      doRef == IOEnv.SEQ_REFINE = "1" /\ (full \/ (afterSeek /\ ev.trunc = 0)) /\ ev.atend = 1 /\ ev.steps = <<>> /\ ungated /\ (cfg.loopEn => cfg.loopN >= 0) /\ Len(D) <= 150
       strip(x) == IF x[1] = "e" THEN <<"e", x[2], x[3], x[4], x[5], x[6]>> ELSE <<"h", x[2], x[3]>>
       realLog == [i \in DOMAIN SelectSeq(AllLog(ev.calls), LAMBDA x : x[1] \in {"e", "h"}) |-> strip(SelectSeq(AllLog(ev.calls), LAMBDA x : x[1] \in {"e", "h"})[i])]
-      mrun == IF doRef THEN PlayModel(song, cfg.loopEn, cfg.loopN) ELSE [calls |-> <<>>, trunc |-> 1]
+      mrun == IF ~doRef THEN [calls |-> <<>>, trunc |-> 1]
+              ELSE IF afterSeek THEN PlayAfterSeekModel(song, cfg.loopEn, cfg.loopN, pos.stgt, 500000 \div cfg.rate)
+              ELSE PlayModel(song, cfg.loopEn, cfg.loopN)
       mlog0 == SelectSeq(AllLog(mrun.calls), LAMBDA x : x[1] = "e" \/ cfg.hooks)
       modelLog == [i \in DOMAIN mlog0 |-> strip(mlog0[i])]
       dr == doRef /\ mrun.trunc = 0 /\ modelLog # realLog
@@ -277,8 +313,8 @@ StepPlayTicks(ev) ==
       f8 == IF pos.moved /\ ~cfg.loopEn /\ ev.trunc = 0 /\ ev.steps = <<>> THEN PlayAfterSeekFails(ev, song, cfg, pos.t) ELSE {}
   IN /\ fails' = AddFails(Tag("C07", { x \in f7 \cup fw : ~is9(x) }, ev, "") \cup Tag("C09", { x \in f7 : is9(x) }, ev, det)
                           \cup Tag("C08", f8, ev, ToString(<<"from", pos.t>>)))
-     /\ pos' = [pos EXCEPT !.moved = TRUE, !.t = IF ev.calls = <<>> THEN @ ELSE ev.calls[Len(ev.calls)][2]]
-     /\ drift' = IF dr /\ Len(drift) < 4 THEN Append(drift, [l |-> l, x |-> exec, e |-> "PlayTicks",
+     /\ pos' = [pos EXCEPT !.moved = TRUE, !.stgt = -1, !.t = IF ev.calls = <<>> THEN @ ELSE ev.calls[Len(ev.calls)][2]]
+     /\ drift' = IF dr /\ Len(drift) < 4 THEN Append(drift, [l |-> l, x |-> exec, e |-> IF afterSeek THEN "PlayTicks-after-seek" ELSE "PlayTicks",
                       d |-> ToString(<<"first-difference-at", CHOOSE i \in 1..(Len(modelLog) + 1) : (i > Len(modelLog) \/ i > Len(realLog) \/ modelLog[i] # realLog[i]) /\ \A j \in 1..(i - 1) : j <= Len(realLog) /\ modelLog[j] = realLog[j]>>)]) ELSE drift
      /\ UNCHANGED <<song, cfg, exec>>
      /\ cnt' = [cnt EXCEPT !.steps = @ + 1, !.plays = @ + 1, !.events = @ + Len(D),
@@ -311,10 +347,14 @@ AudioFails(ev, sg, c, rate) ==
 StepPlayAudio(ev) ==
   LET f == IF ~pos.moved /\ ~cfg.loopEn THEN AudioFails(ev, song, cfg, cfg.rate) ELSE {} IN
   /\ fails' = AddFails(Tag("C07", f, ev, ""))
-  /\ pos' = [pos EXCEPT !.moved = TRUE]
+  /\ pos' = [pos EXCEPT !.moved = TRUE, !.stgt = -1]
   /\ UNCHANGED <<song, cfg, exec, drift>>
   /\ cnt' = [cnt EXCEPT !.steps = @ + 1, !.audio = @ + 1, !.events = @ + Len(FlattenSeq([i \in DOMAIN ev.calls |-> SelectSeq(ev.calls[i][7], LAMBDA x : x[1] = "e")]))]
 
+\* opn2_positionRewind: back at the start, the play that follows is a complete one
+StepRewind(ev) == /\ pos' = Pos0 /\ UNCHANGED <<song, cfg, exec, drift>>
+                  /\ fails' = AddFails(Tag("C08", Lbl(ev.tell = 0, "rewind-tell"), ev, ""))
+                  /\ cnt' = [cnt EXCEPT !.steps = @ + 1]
 StepOther(ev) == UNCHANGED <<song, cfg, pos, exec, fails, drift>> /\ cnt' = [cnt EXCEPT !.steps = @ + 1]
 
 Next ==
@@ -326,6 +366,7 @@ Next ==
           [] ev.e \in {"SetLoop", "SetLoopCount", "SetTempo", "SetHooks", "TrackOpt", "ChanEn"} -> StepCfg(ev)
           [] ev.e = "PlayTicks" -> StepPlayTicks(ev)
           [] ev.e = "Seek" -> StepSeek(ev)
+          [] ev.e = "Rewind" -> StepRewind(ev)
           [] ev.e = "PlayAudio" -> StepPlayAudio(ev)
           [] ev.e = "End" -> UNCHANGED <<song, cfg, pos, exec, fails, cnt, drift>>
           [] OTHER -> StepOther(ev)
